@@ -67,6 +67,13 @@ package limiter
 //@   callsite mask: [C15:key-from-client-address] arg1 == addr
 //@   callsite LoadOrCompute: [C15:bucket-per-masked-subnet] arg1 == gk
 //@   callsite AllowN: [C15:entry-locked-and-stamped] held && arg0 == ge.l && ge.lastSeen == now && arg1 == now && arg2 == n
+// an entry the collector has dropped from the table is never charged (its tokens would be forgotten and the
+// subnet would get a fresh bucket on top): the request fetches the entry again
+//@   callsite AllowN: [C15:dropped-entry-never-charged] !ge.removed
+//@   noterm
+//@   loop 1:
+//@     modifies field(limiter.e), field(time.Time)
+//@     invariant cl != nil && cl.m != nil && masksOK(cl) && !held && nAllow == 0 && key == gk
 
 // The collector's visit of one entry. An entry is forgotten only when nothing is lost by forgetting it: it has
 // not been seen since the deadline and its bucket has refilled to the whole burst, so that the fresh entry the
@@ -89,7 +96,7 @@ package limiter
 // (monitor argument: what the collector decides about an entry and what it does to the table are one critical
 // section of that entry, so a request that already holds the entry either runs before - and is seen - or after -
 // and sees that the entry is gone)
-//@   callsite Delete?: [C15:entry-dropped-inside-its-own-critical-section] held
+//@   callsite Delete?: [C15:entry-dropped-inside-its-own-critical-section] held && value.removed
 //@   callsite TokensAt?: [C15:bucket-read-under-the-entry-lock] held && arg0 == value.l
 
 //@ func (cl *ClientLimiter) Close() (err error)
